@@ -25,11 +25,12 @@ enum SOp {
     EgAdd,
 }
 
-const NAMES: [&str; 19] = ["x", "y", "f", "f0", "f1", "f2", "f7", "fx", "0", "1", "7", "00", "07", "+7", "f07", "f+7", "ff1", "", "é"];
+// the last four are numerals at / beyond what the slot encoding (index * 4 + kind in a u32) can hold
+const NAMES: [&str; 23] = ["x", "y", "f", "f0", "f1", "f2", "f7", "fx", "0", "1", "7", "00", "07", "+7", "f07", "f+7", "ff1", "", "é", "1073741824", "4294967295", "f1073741823", "f1073741824"];
 
 fn alphabet() -> Vec<SOp> {
     let mut v = vec![SOp::Fresh];
-    for n in [0u32, 1, 2, (1 << 30) - 1] {
+    for n in [0u32, 1, 2, (1 << 30) - 1, 1 << 30] {
         v.push(SOp::Numeric(n));
     }
     for s in NAMES {
@@ -131,7 +132,13 @@ fn run_seq(ops: &[SOp]) -> (Vec<Fail>, u64, u64, u64) {
                 order.push(s);
             }
             SOp::Numeric(n) => {
-                let s = Slot::numeric(*n);
+                let s = match catch(|| Slot::numeric(*n)) {
+                    Ok(s) => s,
+                    Err(site) => {
+                        fails.push(("panic".into(), format!("Slot::numeric({n}) panicked"), format!("{site}; sequence: {seq}")));
+                        continue;
+                    }
+                };
                 if s.to_string() != format!("${n}") {
                     fails.push(("numeric-form".into(), format!("numeric({n}) prints as {}", s.to_string()), seq.clone()));
                 }
@@ -139,7 +146,13 @@ fn run_seq(ops: &[SOp]) -> (Vec<Fail>, u64, u64, u64) {
                 order.push(s);
             }
             SOp::Named(nm) => {
-                let s = Slot::named(nm);
+                let s = match catch(|| Slot::named(nm)) {
+                    Ok(s) => s,
+                    Err(site) => {
+                        fails.push(("panic".into(), format!("Slot::named({nm:?}) panicked"), format!("{site}; sequence: {seq}")));
+                        continue;
+                    }
+                };
                 note(s, Some(nm.to_string()), &mut known, &mut by_name, &mut fails, &mut evals);
                 if nm.starts_with('f') {
                     goals |= 2;
